@@ -62,7 +62,8 @@ class Composite:
         components = self.components.values()
         if self.norm_type==Norm.MASS_FRACTION:
             self.proportion_norm = np.sum([i.proportion/i.component_mass for i in components])
-            self.composite_mass  = np.sum([i.proportion for i in components])
+            # mass fractions taken as masses in Da: one formula unit then holds proportion/mass[Da] units of each component
+            self.composite_mass  = Quantity(np.sum([i.proportion for i in components]), Units.ATOMIC_MASS)
         else:
             self.proportion_norm = np.sum([i.proportion for i in components])
             self.composite_mass  = np.sum([i.proportion*i.component_mass for i in components])
@@ -91,7 +92,7 @@ class Composite:
                 weights.append(m.proportion)
             elif self.norm_type==Norm.MASS_FRACTION:
                 values['x'] = m.proportion/m.component_mass/self.proportion_norm
-                values['X'] = Quantity(m.proportion/self.composite_mass)
+                values['X'] = Quantity(m.proportion/self.composite_mass.value(Units.ATOMIC_MASS))
                 weights.append(m.proportion/m.component_mass)
             # convert to proper units
             for col in column_names:
